@@ -130,7 +130,7 @@ func (h *Hist) StateKey() string {
 				rel(s.LastScaleOut, now), s.CPUCapacityMilli, s.MemCapacityBytes, strings.Join(s.TaintTracker, ","), strings.Join(s.ForceTaintTracker, ","), s.MinNodes, s.MaxNodes)
 		}
 	}
-	fmt.Fprintf(&b, "#h;r%v;i%d;", h.needRestart, h.W.SeqInst())
+	fmt.Fprintf(&b, "#h;r%v;i%d;life%v%v%v;", h.needRestart, h.W.SeqInst(), h.lifeRebuilt, h.lifeScaledUp, h.lifeRemoved)
 	for _, m := range h.Monitors {
 		b.WriteString(m.Key())
 		b.WriteString(";")
